@@ -19,7 +19,7 @@ func init() {
 			"results whose ok/err companion is discarded (big.Int.SetString) must be audited the same way; single-value type assertions are not allowed; " +
 			"D2 dispatch/parse agreement — for every ecosystem case of Parse the returned concrete type's CompareStr re-parses its argument with the same parse function and forwards that function's error; MustParse panics only on Parse's error; " +
 			"D3 operand mirror — every comparison in a comparator between values rooted at the two operands uses the same access path on both sides; D4 mirrored branches of a comparator return negated constants, self-mirrored conditions return 0. " +
-			"Added in round 2: D5 numeric components are never parsed with fixed-width strconv parsing (every numeric test goes through big.Int). Added in round 3: D6 a test made on one operand of a comparator is also made on the other; no multi-character or computed cutset trimming. Added in round 7: D7 character classes — the sets of character codes per outcome of the classifiers (isASCIILetter, isASCIIDigit, shouldBeTrimmed, the Debian digit-prefix closure, weighDebianChar), computed by abstract interpretation over interval sets, equal the audited sets. NOT decided: antisymmetry, reflexivity, transitivity and agreement with the ecosystems' published orderings as such (value-level); the mirror/shape rules are necessary conditions only.",
+			"Added in round 2: D5 numeric components are never parsed with fixed-width strconv parsing (every numeric test goes through big.Int). Added in round 3: D6 a test made on one operand of a comparator is also made on the other; no multi-character or computed cutset trimming. Added in round 7: D7 character classes — the sets of character codes per outcome of the classifiers (isASCIILetter, isASCIIDigit, shouldBeTrimmed, the Debian digit-prefix closure, weighDebianChar), computed by abstract interpretation over interval sets, equal the audited sets. Added in round 8: D2 additionally: the parser each ecosystem name dispatches to in semantic.Parse is the audited one (16 names). NOT decided: antisymmetry, reflexivity, transitivity and agreement with the ecosystems' published orderings as such (value-level); the mirror/shape rules are necessary conditions only.",
 		Assume: []string{"audited sites (listed in evidence with reason) are safe by a data invariant that this analysis does not prove"},
 		Run:    runC07,
 		Controls: []Mutant{
@@ -77,6 +77,7 @@ func runC07(p *Prog, r *Report) {
 	r.Rule("D6-symmetric-guards", "a test made on one operand of a comparator is also made on the other")
 	r.Rule("D7-char-classes", "character classes of the comparators (letters, digits, trimmed characters) are the audited sets of codes")
 	c07CharClasses(p, r, "D7-char-classes")
+	c07ParseDispatch(p, r, "D2-parse-agreement")
 	r.Rule("D5-arbitrary-precision", "numeric components are never parsed with fixed-width integer parsing")
 	c07Precision(p, r)
 	cutsetDiscipline(p, r, "D5-arbitrary-precision", "semantic")
